@@ -7,10 +7,12 @@ def run(ctx):
     cli.rule_dispatch(ctx, 'skeptical')
     accept.rule_membership_answers(ctx, 'skeptical')
     accept.rule_list_quantifiers(ctx, 'skeptical')
+    accept.rule_every_listed_argument(ctx, 'skeptical')
     accept.rule_no_shortcut_with_certificate(ctx)
     accept.rule_certificate_shapes(ctx, 'skeptical')
     provenance.rule_literal_provenance(ctx, 'skeptical')
     provenance.rule_fresh_solver_per_encoding(ctx, 'skeptical')
+    provenance.rule_range_encoding(ctx)
     accept.rule_stage_layering(ctx, 'skeptical')
     ctx.assume("rustc's MIR and resolved callees; the tables stated in the property (DS-CO through the grounded solver)")
     return (
